@@ -209,6 +209,60 @@ func r17_3(r *Report, p *Program) {
 			ok, why = false, "go statement not preceded by wg.Add"
 		}
 	}
+	// what the goroutines share besides their own revision — objects made in syncRevisions before the fan-out and
+	// captured by / handed to every goroutine — is not modified by the goroutine body, directly or in callees
+	if ok {
+		loopOfGo := engine.EnclosingLoop(engine.RangeLoops(f), goI)
+		var shared []ssa.Value // values in cl's frame
+		addShared := func(outer ssa.Value, inner ssa.Value) {
+			switch outer.(type) {
+			case *ssa.Parameter, *ssa.Const, *ssa.Function, *ssa.Global:
+				return
+			}
+			if !isNillableT(outer.Type()) {
+				if _, isPtr := outer.Type().Underlying().(*types.Pointer); !isPtr {
+					return
+				}
+			}
+			if strings.Contains(outer.Type().String(), "sync.") {
+				return
+			}
+			if in, isI := outer.(ssa.Instruction); isI && loopOfGo != nil && loopOfGo.Contains(in) {
+				return // made per iteration
+			}
+			shared = append(shared, inner)
+		}
+		if mc, isMC := goI.Common().Value.(*ssa.MakeClosure); isMC {
+			for i, b := range mc.Bindings {
+				if i < len(cl.FreeVars) {
+					// a captured variable is a cell (Alloc): look at what is stored in it
+					if al, isAl := b.(*ssa.Alloc); isAl {
+						if refs := al.Referrers(); refs != nil {
+							for _, u := range *refs {
+								if st, isS := u.(*ssa.Store); isS && st.Addr == ssa.Value(al) {
+									if _, isParam := st.Val.(*ssa.Parameter); !isParam {
+										addShared(st.Val, st.Val) // (PointsInto resolves a captured cell to what was stored in it)
+									}
+								}
+							}
+						}
+						continue
+					}
+					addShared(b, b)
+				}
+			}
+		}
+		for i, a := range goI.Common().Args {
+			if i != own && i < len(cl.Params) {
+				addShared(a, cl.Params[i])
+			}
+		}
+		for _, sv := range shared {
+			for _, m := range p.Mutations(cl, sv) {
+				ok, why = false, "the goroutines share "+E(sv)+" (made once before the fan-out) and the goroutine body modifies it ("+m.What+" at "+p.InstrPos(m.Instr)+"): concurrent unsynchronised writes, and each hook call can see another revision's values"
+			}
+		}
+	}
 	r.Check(rule, FK(f)+"[goroutine-owns-its-revision]", p.InstrPos(goI), ok, "each goroutine writes only its own parentRevision; Add before go; Done deferred", why)
 	waits := callsTo(f, false, "sync.WaitGroup.Wait")
 	okW, whyW := len(waits) == 1, "expected one wg.Wait"
